@@ -437,8 +437,9 @@ class LLMGenerationActionsV2dotx(LLMGenerationActions):
 
                 # In this case, if the last message is from the user, we replace the text
                 # just in case the input rails may have altered it.
+                # (in our copy of the list: the message objects belong to the caller)
                 if prompt[-1]["role"] == "user":
-                    raw_prompt[-1]["content"] = event["final_transcript"]
+                    prompt[-1] = {**prompt[-1], "content": event["final_transcript"]}
             else:
                 raise ValueError(f"Unsupported type for raw prompt: {type(raw_prompt)}")
 
